@@ -113,7 +113,7 @@ def case_strategy(draw):
                 if w == 1 and bh == 1 and draw(st.booleans()):
                     blocks.append(dict(num=draw(number_st())))
                 else:
-                    blocks.append(dict(mat=draw(mat_st(m=bh, n=w))))
+                    blocks.append(dict(mat=draw(mat_st(m=bh, n=w)), sp=draw(st.integers(0, 2)) == 0))     # sp: given as spmatrix
                 left -= bh
             cols.append(blocks)
         if draw(st.integers(0, 5)) == 0:
@@ -264,7 +264,15 @@ def run_both(case):
         return (lambda: rd.construct(to_model(case["A"]), size, case["tc"])), (lambda: matrix(A, **kw)), {"operands": [A]}
     if op == "cblocks":
         mcols = [[to_model(b["mat"]) if "mat" in b else num_val(b["num"]) for b in col] for col in case["cols"]]
-        rcols = [[to_cvx(b["mat"]) if "mat" in b else num_val(b["num"]) for b in col] for col in case["cols"]]
+        def blk(b):
+            if "mat" not in b:
+                return num_val(b["num"])
+            M_ = to_cvx(b["mat"])
+            if b.get("sp") and M_.typecode != "i":
+                from cvxopt import sparse as _sparse
+                return _sparse(M_)            # same dense image; the manual allows dense or sparse blocks
+            return M_
+        rcols = [[blk(b) for b in col] for col in case["cols"]]
         return (lambda: rd.construct_blocks(mcols)), (lambda: matrix(rcols)), {}
     if op in ("get1", "get2"):
         A = to_cvx(case["A"])
